@@ -117,11 +117,11 @@ def run_property(pid, tier="quick", seed=0, verbose=False):
         for (oid, ok, where, lineno) in fn(REPO):
             statics.append(StaticObligation(f"{pid}.{oid}", ok, where, lineno))
     timeout_ms = 60000 if tier == "thorough" else 30000
+    findings = [f for f in load_findings() if f["property"] == pid]
     reports, results, prove_s = prove(contracts, reg, REPO, timeout_ms=timeout_ms, statics=statics,
                                       cvc5_all=(tier == "thorough" and spec.get("cvc5_all", False)),
-                                      lemmas=spec.get("lemmas", []))
+                                      lemmas=spec.get("lemmas", []), brief=[f["key"] for f in findings if "#" in f["key"]])
     lock = load_lock().get(pid, {})
-    findings = [f for f in load_findings() if f["property"] == pid]
 
     class _Known(dict):
         """exact keys, plus keys ending in `*` that match by prefix (e.g. `C09:*.size0` is written `C09:*.size0`)"""
